@@ -78,6 +78,9 @@ type WorldOpts struct {
 	Binary       bool // run the built service binary (cmd/main.go) as a child process and talk gRPC to it
 	// DiscoveryExplicit (with Discovery): the endpoints are spelled out as well and the keys come from jwks_fetcher
 	DiscoveryExplicit bool
+	// JwksFetchSec > 0 (without Discovery): keys come from jwks_fetcher at the provider's JWKS endpoint, refreshed at
+	// this interval by the real key provider
+	JwksFetchSec int
 	// Neighbour ("memory" | "redis", with RealFactory): another OIDC filter in an EARLIER chain that no request of this
 	// world matches, on the other kind of store (Redis: database 7 of the same server) with timeouts of its own
 	Neighbour                   string
@@ -178,6 +181,9 @@ func NewWorld(c *Case, o WorldOpts) *World {
 		}
 		cfg.TokenUri = w.IdP.TokenURL()
 		cfg.JwksConfig = &oidcv1.OIDCConfig_Jwks{Jwks: JWKS(w.IdP.Keys)}
+		if o.JwksFetchSec > 0 {
+			cfg.JwksConfig = &oidcv1.OIDCConfig_JwksFetcher{JwksFetcher: &oidcv1.OIDCConfig_JwksFetcherConfig{JwksUri: w.IdP.JWKSURL(), PeriodicFetchIntervalSec: uint32(o.JwksFetchSec)}}
+		}
 	}
 	if o.AccessToken {
 		h := o.ATHeader
@@ -257,7 +263,7 @@ func NewWorld(c *Case, o WorldOpts) *World {
 	}
 	w.Full = full
 	prov := oidc.NewJWKSProvider(full, w.TLS)
-	if o.Discovery {
+	if o.Discovery || o.JwksFetchSec > 0 {
 		// discovery switches the filter to the JWKS fetcher, which needs the provider's service loop
 		go func() { _ = prov.ServeContext(ctx) }()
 	}
